@@ -76,9 +76,10 @@ func (r *verifTreeReader) Next() (*File, error) {
 }
 
 type verifArchWalker struct {
-	b   []byte
-	pos int
-	ok  bool
+	b     []byte
+	pos   int
+	ok    bool
+	names []string // filename elements in archive order
 }
 
 func (w *verifArchWalker) u64(off int) uint64 { return binary.LittleEndian.Uint64(w.b[off : off+8]) }
@@ -127,6 +128,7 @@ func (w *verifArchWalker) node(depth int) {
 			vAssert(w.b[w.pos+size-1] == 0, "filename element is not NUL terminated")
 			name := w.b[w.pos+16 : w.pos+size-1]
 			vAssert(len(name) > 0 && !bytes.ContainsAny(name, "/\x00"), "filename element holds an invalid name")
+			w.names = append(w.names, string(name))
 			w.pos += size
 			if depth > 4 {
 				vAssert(false, "nesting deeper than the harness builds")
@@ -244,5 +246,50 @@ func VerifC13_Archive() {
 	w := &verifArchWalker{b: buf.Bytes()}
 	w.node(0)
 	vAssert(w.pos == len(w.b), "bytes left over after the root directory's goodbye table")
+	verifSameNames(w.names, files)
+	vCover("archive-validated")
+}
+
+// verifSameNames: the filename elements are the input names, complete and in input order.
+func verifSameNames(got []string, files []*File) {
+	vAssert(len(got) == len(files)-1, "the archive does not have one filename element per non-root entry")
+	for k := 1; k < len(files) && k-1 < len(got); k++ {
+		vAssert(got[k-1] == files[k].Name, "a filename element does not carry the entry's name")
+	}
+}
+
+// VerifC13_LongNames: a directory whose children have names of every length around the SipHash
+// block size (8) and around NAME_MAX (255, which a tar or archive source can exceed).
+func VerifC13_LongNames() {
+	lens := []int{1, 7, 8, 9, 15, 16, 17, 254, 255, 256, 257, 300}
+	if vTier() > 0 {
+		lens = nil
+		for l := 1; l <= 40; l++ {
+			lens = append(lens, l)
+		}
+		lens = append(lens, 63, 64, 65, 127, 128, 129, 253, 254, 255, 256, 257, 258, 300, 511, 512, 513, 1000)
+	}
+	mkname := func(l int, first byte) string {
+		b := make([]byte, l)
+		for k := range b {
+			b[k] = 'a' + byte(k%26)
+		}
+		b[0] = first
+		return string(b)
+	}
+	files := []*File{{Name: ".", Path: ".", Mode: os.ModeDir | 0755, ModTime: time.Unix(0, 0)}}
+	n := 1 + vChoose("children", 2)
+	for k := 0; k < n; k++ {
+		name := mkname(lens[vChoose("name-length", len(lens))], 'A'+byte(k))
+		files = append(files, &File{Name: name, Path: name, Mode: 0644, Size: 1, ModTime: time.Unix(0, vI64("mtime")),
+			Data: io.NopCloser(bytes.NewReader(vBytes("content", 1)))})
+	}
+	var buf bytes.Buffer
+	err := Tar(context.Background(), &buf, &verifTreeReader{files: files})
+	vAssert(err == nil, "Tar failed")
+	w := &verifArchWalker{b: buf.Bytes()}
+	w.node(0)
+	vAssert(w.pos == len(w.b), "bytes left over after the root directory's goodbye table")
+	verifSameNames(w.names, files)
 	vCover("archive-validated")
 }
